@@ -6,7 +6,7 @@ from typing import List
 
 from vf.cond import cond
 
-from .common import STUB_MARKUPSAFE, DictLoader, LiquidError, concrete_int, in_alpha, seed
+from .common import drive, STUB_MARKUPSAFE, DictLoader, LiquidError, concrete_int, in_alpha, seed
 
 from liquid2.shopify import Environment as ShopifyEnvironment  # noqa: E402
 
@@ -86,11 +86,11 @@ PAIR_T = {
 }
 
 
-def _ok(t, **data) -> bool:
+def _ok(t, _is_async: bool = False, **data) -> bool:
     if t is None:
         return True
     try:
-        out = t.render(**data)
+        out = drive(t.render_async(**data)) if _is_async else t.render(**data)
     except LiquidError:
         return True
     return safe_out(out)
@@ -192,16 +192,16 @@ except Exception:  # noqa: BLE001
     consts_thorough={"N": 2},
     timeout=240,
     timeout_thorough=1200,
-    shard={"i": [i for i in range(len(FLOWS)) if i != 5]},
-    covers="data flowing through capture (nested, then appended to), loops and list/hash output, join with a data separator, render/include partials, macro arguments, template strings, translations with data arguments, split/default/echo, ternaries/cycle/case, with, json",
+    shard={"i": [i for i in range(len(FLOWS)) if i != 5], "is_async": [False, True]},
+    covers="data flowing through capture (nested, then appended to), loops and list/hash output, join with a data separator, render/include partials, macro arguments, template strings, translations with data arguments, split/default/echo, ternaries/cycle/case, with, json; render() and render_async()",
     bounds="x over {< & \" a} len <= 1 (thorough 2); y over {< & a '} len <= 1; lists [x, y], hash {k: x, y: y}",
     stubs=(STUB_MARKUPSAFE,),
-    grid=lambda: [(i, x, y, 9) for i in range(len(FLOWS)) for x in ("<", "a\"", "&<") for y in ("'", "<")],
+    grid=lambda: [(i, x, y, 9, a) for i in range(len(FLOWS)) for x in ("<", "a\"", "&<") for y in ("'", "<") for a in (False, True)],
 )
-def d_flows(i: int, x: str, y: str, N: int) -> bool:
-    out_ok = _ok(FLOW_T[i], x=x, y=y, l=[x, y], h={"k": x, "y" + y: y})
+def d_flows(i: int, x: str, y: str, N: int, is_async: bool) -> bool:
+    out_ok = _ok(FLOW_T[i], is_async, x=x, y=y, l=[x, y], h={"k": x, "y" + y: y})
     if i == 0 and CHILD is not None:
-        out_ok = out_ok and _ok(CHILD, x=x)
+        out_ok = out_ok and _ok(CHILD, is_async, x=x)
     return out_ok
 
 
